@@ -81,6 +81,11 @@ type Input struct {
 	// CLI > 0: every step that has a process-level form is executed by the real binary
 	// cmd/layercake (see cli.go); the value varies where the global switches are put
 	CLI int `json:"cli,omitempty"`
+	// Conf: path of a configuration file inside the world that process-level steps pass with
+	// -config (the generator writes it so that, by the documentation, it resolves to Cfg);
+	// ConfBase: -basepath is passed as well
+	Conf     string `json:"conf,omitempty"`
+	ConfBase bool   `json:"confbase,omitempty"`
 }
 
 // ---------------------------------------------------------------- observation types
@@ -90,10 +95,10 @@ type Op struct {
 }
 
 type LayerObs struct {
-	Name, Base                           string
-	State                                int
+	Name, Base                                string
+	State                                     int
 	MountBusy, NonMountBusy, Overlain, Chroot bool
-	Mounts                               []string
+	Mounts                                    []string
 }
 
 type StepObs struct {
@@ -423,11 +428,11 @@ func Run(in Input) ([]Entry, []StepObs, error) {
 	fs0 := dumpTree(ScratchBase)
 	cur := fs0
 	var obs []StepObs
-	cli := in.CLI > 0 && CLIAvailable() && stdConfigIs(in.Cfg)
+	cli := in.CLI > 0 && CLIAvailable()
 	for i, st := range in.Steps {
 		var o StepObs
-		if cli && cliEligible(in.Cfg, st) {
-			o = runStepCLI(in.Cfg, k, st, in.CLI+i)
+		if cli && cliEligible(in, st) {
+			o = runStepCLI(in, k, st, in.CLI+i)
 			if o.Res == "harness-error" {
 				return nil, nil, fmt.Errorf("process-level step %d: %s", i, o.Err)
 			}
@@ -461,9 +466,9 @@ func entryTerm(e Entry) string {
 }
 
 // FsTerm, CfgTerm, CmdTerm: Gallina terms for other case formats.
-func FsTerm(es []Entry) string { return fsTerm(es) }
-func CfgTerm(c Cfg) string    { return cfgTerm(c) }
-func CmdTerm(c Cmd) string    { return cmdTerm(c) }
+func FsTerm(es []Entry) string     { return fsTerm(es) }
+func CfgTerm(c Cfg) string         { return cfgTerm(c) }
+func CmdTerm(c Cmd) string         { return cmdTerm(c) }
 func DumpTree(root string) []Entry { return dumpTree(root) }
 
 func fsTerm(es []Entry) string {
